@@ -220,7 +220,26 @@ func gen(w *world, t *trace.W, r *rng.R, maxOps int) {
 	ops := r.Range(4, maxOps)
 	for k := 0; k < ops; k++ {
 		var op string
-		switch r.Pick(28, 20, 12, 10, 8, 5, 7, 10) {
+		switch r.Pick(28, 20, 12, 10, 8, 5, 7, 10, 9, 7) {
+		case 8:
+			// another member led meanwhile and changed one section (values below and above the served ones)
+			switch r.Intn(6) {
+			case 0:
+				op = "foreign sched " + genSched(w, r)
+			case 1:
+				op = "foreign repl " + genRepl(w, r)
+			case 2:
+				op = "foreign pdsrv " + genPD(w, r)
+			case 3:
+				op = "foreign lpcfg " + genLP(r)
+			case 4:
+				op = "foreign cver " + pick(r, []string{"3.1.2", "4.0.0", "4.0.9", "5.0.0", "5.1.0", "6.0.0"})
+			case 5:
+				op = "foreign rmode " + genRM(w, r)
+			}
+		case 9:
+			// this member is re-elected and reloads into the options object it serves from
+			op = "reload"
 		case 0:
 			op = fmt.Sprintf("sched %s %d", genSched(w, r), genMask(r))
 		case 1:
@@ -241,7 +260,7 @@ func gen(w *world, t *trace.W, r *rng.R, maxOps int) {
 		res := w.run(t, op)
 		// a call rejected by the storage is retried unchanged with healthy storage half of the time (an
 		// operator's natural reaction); every line is followed by a reload on a fresh Storage + options object
-		if (res == "kverr" || res == "json") && r.Bool(1, 2) {
+		if (res == "kverr" || res == "json") && !strings.HasPrefix(op, "foreign") && r.Bool(1, 2) {
 			f := strings.Fields(op)
 			f[len(f)-1] = "0"
 			w.run(t, strings.Join(f, " "))
